@@ -217,6 +217,18 @@ def run(ctx):
         "(directly or through its group)",
         "TABLE", floor=FLOOR_COMMANDS,
     )
+    r4 = ctx.rule(
+        "C19.R4",
+        "STATE (interpreted): `pyhf fit` and `pyhf cls` walked end to end over a model of the backend manager, files and recording "
+        "library objects, for every --backend / --optimizer choice (and the defaults read from the decorators), several --optconf "
+        "lists, both output arms, and process states left by an earlier invocation: exactly one library call, with the workspace, "
+        "measurement, patches and value options as given, issued under the backend the option names and under the optimiser the "
+        "options name with exactly the merged --optconf settings; the JSON emitted is made of what that call returned",
+        "STATE", floor=6,
+    )
+    from . import c19cli
+    c19cli.check_infer(ctx, r4, repo)
+    c19cli.check_inspect(ctx, r4, repo)
     all_cmds = []
     for fn in ("infer.py", "spec.py", "patchset.py", "rootio.py"):
         m = repo.module(CLI + fn)
